@@ -435,7 +435,10 @@ func (r *vfMqResRun) adminDelete(d *vfMqResID) {
 
 // endPending lets the read loop of a broker-closed connection notice its end.
 func (r *vfMqResRun) endPending(d *vfMqResID) {
-	i := rapid.IntRange(0, len(d.pending)-1).Draw(r.rt, "which")
+	i := 0 // mostly the oldest one
+	if rapid.IntRange(0, 2).Draw(r.rt, "oldestFirst") == 0 {
+		i = rapid.IntRange(0, len(d.pending)-1).Draw(r.rt, "which")
+	}
 	how := rapid.SampledFrom([]string{"ping", "halfclose", "disconnect"}).Draw(r.rt, "pendingEndHow")
 	p := d.pending[i]
 	r.log("%s: end-of-%s-closed-connection(%s via %s)", d.cid, p.why, p.c.Label, how)
@@ -633,10 +636,21 @@ func vfMqResidueCheck(t *testing.T, property string) {
 		for i := 0; i < nIDs; i++ {
 			r.ids = append(r.ids, &vfMqResID{cid: fmt.Sprintf("d%d", i), lastEnd: "never connected"})
 		}
-		nSteps := rapid.IntRange(4, 14).Draw(rt, "nSteps")
+		nSteps := rapid.IntRange(5, 16).Draw(rt, "nSteps")
 		for s := 0; s < nSteps && !r.abandon; s++ {
 			r.sweep()
 			d := r.ids[rapid.IntRange(0, nIDs-1).Draw(rt, "id")]
+			// stay with an id that has broker-closed connections still open: the interesting
+			// histories are the ones in which their ends interleave with the id's next steps
+			var busy []*vfMqResID
+			for _, x := range r.ids {
+				if len(x.pending) > 0 {
+					busy = append(busy, x)
+				}
+			}
+			if len(busy) > 0 && rapid.IntRange(0, 2).Draw(rt, "stayWithBusyID") > 0 {
+				d = busy[rapid.IntRange(0, len(busy)-1).Draw(rt, "busyID")]
+			}
 			var ops []string
 			if d.live == nil {
 				ops = []string{"connect", "connect", "connect"}
@@ -644,10 +658,16 @@ func vfMqResidueCheck(t *testing.T, property string) {
 					ops = append(ops, "delete-session")
 				}
 			} else {
-				ops = []string{"sub", "sub", "sub", "unsub", "end", "end", "delete-session", "delete-session", "takeover"}
+				ops = []string{"sub", "sub", "sub", "unsub", "end", "end", "delete-session", "delete-session", "takeover", "takeover"}
+				if len(d.pending) > 0 {
+					ops = append(ops, "delete-session", "delete-session", "end", "end")
+				}
 			}
 			for range d.pending {
 				ops = append(ops, "end-pending", "end-pending")
+				if d.live == nil {
+					ops = append(ops, "end-pending", "end-pending")
+				}
 			}
 			switch rapid.SampledFrom(ops).Draw(rt, "op") {
 			case "connect", "takeover":
